@@ -300,6 +300,40 @@ def run_driver(binary, driver, args, outdir, timeout=1200):
     return {"cmd": cmd, "summaries": sums, "stdout": p.stdout, "aborted": aborted}
 
 
+def bubble_trace(files, out_path, nmax=24, wmax=12):
+    """extract the level-sort part of every `reorder` event (hook events of
+    oxidd_reorder::verif: input sequence, swap begin/end, return) into a
+    trace for TraceBubbleSort.tla.  Transport only: no state is computed."""
+    stats = {"sorts": 0, "concurrent": 0, "swaps": 0, "skipped_long": 0, "origin": []}
+    with open(out_path, "w") as out:
+        for fn in files:
+            thr = 1
+            with open(fn) as f:
+                for ln_no, ln in enumerate(f, 1):
+                    if '"ev":"reset"' in ln:
+                        thr = json.loads(ln).get("thr", 1)
+                        continue
+                    if '"ev":"reorder"' not in ln:
+                        continue
+                    e = json.loads(ln)
+                    if "sortseq" not in e or (not e["sortseq"] and not e.get("swaps")):
+                        continue
+                    if len(e["sortseq"]) > nmax:
+                        stats["skipped_long"] += 1
+                        continue
+                    stats["sorts"] += 1
+                    stats["concurrent"] += 1 if e.get("conc") else 0
+                    stats["swaps"] += sum(1 for x in e["swaps"] if x[0] == 0)
+                    stats["origin"].append((fn, ln_no))
+                    out.write(json.dumps({"ev": "sort", "seq": e["sortseq"], "workers": min(int(thr), wmax),
+                                          "conc": bool(e.get("conc")), "src": ln_no}) + "\n")
+                    for k, i in e["swaps"]:
+                        out.write(json.dumps({"ev": "b" if k == 0 else "e", "i": i}) + "\n")
+                    if e.get("sorted"):
+                        out.write(json.dumps({"ev": "sorted"}) + "\n")
+    return stats
+
+
 def product_trace(config_files, prop, out_path, labels=None):
     """zip the traces of the same call sequence executed under several
     configurations into one product trace for TraceConfig.tla (transport
@@ -350,14 +384,14 @@ def load_known():
         return json.load(f).get("findings", [])
 
 
-def history_of(path, index):
+def history_of(path, index, reset_ev="reset"):
     """events of the history containing 1-based event `index` (from its reset)"""
     with open(path) as f:
         lines = f.readlines()
     start = 0
     for i in range(min(index, len(lines)) - 1, -1, -1):
         try:
-            if json.loads(lines[i]).get("ev") == "reset":
+            if json.loads(lines[i]).get("ev") == reset_ev:
                 start = i
                 break
         except Exception:
@@ -367,7 +401,7 @@ def history_of(path, index):
 
 
 # which property owns a process abort during which kind of call
-ABORT_OWNER = {"reorder": "C08", "add_vars": "C16", "thread panicked": "C07"}
+ABORT_OWNER = {"reorder": "C08", "add_vars": "C16", "thread panicked": "C07", "mtconc": "C07"}
 
 
 def _kind_tag(hist):
